@@ -2,6 +2,7 @@ package main
 
 import (
 	"bytes"
+	"com.tuntun.rangers/node/src/middleware/db"
 	"encoding/json"
 	"os"
 	"runtime"
@@ -29,6 +30,27 @@ type concScenario struct {
 	Op2   string `json:"op2"`
 	Sched []int  `json:"sched"`
 }
+
+// pausingStore holds ONE existence lookup of one key between its store read and its return.
+type pausingStore struct {
+	db.Database
+	key     []byte
+	armed   bool
+	reached chan struct{}
+	release chan struct{}
+}
+
+func (p *pausingStore) Has(k []byte) (bool, error) {
+	v, err := p.Database.Has(k)
+	if p.armed && bytes.Equal(k, p.key) {
+		p.armed = false
+		close(p.reached)
+		<-p.release
+	}
+	return v, err
+}
+
+var pstore *pausingStore
 
 type thread struct {
 	id      int
@@ -82,6 +104,12 @@ func (th *thread) waitStop() string {
 func runConc(tr *vutil.Trace, sc concScenario) {
 	universe := []txRec{{1, 0, 0}, {1, 1, 0}}
 	nonces := map[int]int{1: 0}
+	for _, id := range sc.Sched {
+		if id == 4 {
+			skipLookups = true
+		}
+	}
+	defer func() { skipLookups = false }()
 	newHistory(universe, nonces)
 	resetEvent(tr, universe, nonces)
 	t := txs[0]
@@ -133,7 +161,41 @@ func runConc(tr *vutil.Trace, sc concScenario) {
 		return th
 	}
 	followed := make([]string, 0)
+	var lookDone chan bool
+	lookPaused := false
 	for _, id := range sc.Sched {
+		if id == 4 {
+			// a lock-free existence lookup in two steps: the store read, the return
+			if lookDone == nil {
+				pstore.key, pstore.reached, pstore.release = t.Hash.Bytes(), make(chan struct{}), make(chan struct{})
+				pstore.armed = true
+				lookDone = make(chan bool, 1)
+				go func() { lookDone <- pool.IsExisted(t.Hash) }()
+				select {
+				case <-pstore.reached:
+					lookPaused = true
+					followed = append(followed, "lookup.read")
+				case <-lookDone: // answered from the pending container
+					pstore.armed = false
+					lookDone <- true
+					followed = append(followed, "lookup.pending")
+				case <-time.After(5 * time.Second):
+					vutil.Fatalf("conc: lookup neither paused nor returned")
+				}
+			} else {
+				if lookPaused {
+					lookPaused = false
+					close(pstore.release)
+				}
+				select {
+				case <-lookDone:
+				case <-time.After(5 * time.Second):
+					vutil.Fatalf("conc: lookup did not return")
+				}
+				followed = append(followed, "lookup.return")
+			}
+			continue
+		}
 		if id == 3 {
 			// a lock-free reader between two critical sections of the other threads: the block
 			// proposer packing, the rpc layer listing the pool
@@ -159,6 +221,10 @@ func runConc(tr *vutil.Trace, sc concScenario) {
 		}
 		followed = append(followed, th.waitStop())
 	}
+	if lookPaused {
+		close(pstore.release)
+		<-lookDone
+	}
 	// let everything finish
 	for _, th := range ths {
 		for !th.fin {
@@ -177,6 +243,7 @@ func runConc(tr *vutil.Trace, sc concScenario) {
 		}
 	}
 	service.VerifGate = nil
+	skipLookups = false
 	ok1, ok2 := false, false
 	if ths[1] != nil {
 		ok1 = ths[1].ok
@@ -199,6 +266,10 @@ func concMode(tr *vutil.Trace, path string) int {
 	if err := json.Unmarshal(b, &scs); err != nil {
 		vutil.Fatalf("parse schedules: %v", err)
 	}
+	service.VerifWrapExecutedStore(func(d db.Database) db.Database {
+		pstore = &pausingStore{Database: d}
+		return pstore
+	})
 	for _, sc := range scs {
 		runConc(tr, sc)
 	}
